@@ -412,6 +412,11 @@ def rule_v3_check(chk, db):
                 sl = flow.backward(b, w["rv"]["ops"][0])
                 if any(c_bi == bi for c_bi, _, _ in sl.calls):
                     continue
+            if w["kind"] == "call" and short(callee_def(w["term"])) == "transpose" and callee_def(w["term"]).startswith("core::option::Option") and w["term"]["args"]:
+                # Option<Result<T, E>> -> Result<Option<T>, E>: Some(Err(e)) becomes Err(e), the verdict is kept
+                sl = flow.backward(b, w["term"]["args"][0], at=w["bi"])
+                if any(c_bi == bi for c_bi, _, _ in sl.calls):
+                    continue
             bad.append(w)
         chk.verdict(bool(fw) and not bad, "V3", "check." + nm, b.loc(bi),
                     "a verdict of %s can be dropped: Some(result) leads to %s" % (nm, [(w["kind"], b.loc(w["bi"])) for w in bad]))
